@@ -10,18 +10,27 @@ THEOREMS = [
     "C01_init",
     "C01_allocator_total",
     "C01_started_on_free_slot",
+    "C01_running_subset_in_progress_partial",
+    "C01_running_same_event_partial",
+    "C01_running_bounded_partial",
+    "C01_refuted_running_bounded",
+    "C01_refuted_running_subset_in_progress",
 ]
 LEAN_TARGETS = ["WfProps.C01"]
 EXPLANATION = (
     "Invariant proved in Lean by induction over arbitrary tick sequences on the reducer model: in every reachable "
     "state the in-progress worker ids of every step are distinct and in [0,num_workers) (hence at most num_workers), "
-    "the slot allocator never fails, and a started worker gets a slot that was free. Tie: reducer model vs real "
+    "the slot allocator never fails, and a started worker gets a slot that was free; lifted to the runner LTS for arbitrary action lists: "
+    "the live worker tasks are backed by in_progress rows and occupy pairwise distinct slots, hence at most num_workers per step "
+    "(for schedules where no invocation names a collect buffer twice; the unguarded statement is refuted by a concrete witness). Tie: reducer model vs real "
     "_reduce_tick/rewind_in_progress on generated (state,tick) pairs incl. ill-formed ones, and whole live runs "
     "replayed tick by tick on the runner model (buffer, timers, worker set, commands, state). Search: real step "
     "bodies count concurrent entries per step; stream slot discipline; in_progress tables after every tick."
 )
 ASSUMPTIONS = suite.ENGINE_ASSUMPTIONS + [
-    "worker coroutines exist only for in_progress entries (CommandRunWorker is emitted with the insertion): checked by the runner correspondence, not yet proved on the runner model",
+    "live worker tasks (Runner.running) are a duplicate-free sub-table of in_progress: proved on the runner model for every schedule in "
+    "which no invocation names a collect buffer twice (Act.CollectOnce); without that guard it is refuted (one tick can re-run a slot twice, "
+    "harness/corpus/c01_double_collect_rerun_witness.py) and the generated workflows do not exercise it",
     "cannot exhibit: a sync step whose executor thread outlives its cancelled task",
 ]
 
